@@ -8,8 +8,7 @@ float (t/8) or an int (t//8, only when 8 | t).
 op  = ["reset"] | ["setup"] (life cycle: Simulator.reset(), setup(<a new model>)) |
       ["sched", kind, t, fl, prio, tag, holder, body] | ["cancel", tag] | ["drop", holder]
     | ["until", t, fl] | ["for", d, fl] | ["next"] | ["peek", n]
-act = ["sched", ...same...] | ["cancel", tag] | ["drop", holder] | ["raise"] (the user callable raises; only in cases
-      marked "exc": true, which are judged by the oracle alone)
+act = ["sched", ...same...] | ["cancel", tag] | ["drop", holder] | ["raise"] (the user callable raises UserBoom: ARaise in the model)
 kind in now|rel|abs|tick, prio in L|D|H.  Tags are unique per case; model.step events show as tag -1.
 
 User code: an event's callable is the bound method `fire` of a Holder object (even holder ids; WeakMethod) or a plain
@@ -171,13 +170,12 @@ class _Env:
                 ev = self.sim.schedule_event_absolute(fn, tv(t, fl), **kw)
             else:
                 ev = self.sim.schedule_event_next_tick(fn, **kw)
-        except ValueError as e:
-            msg = str(e)
-            if "in the past" in msg:
-                return R_PAST, 0
-            if "time unit mismatch" in msg:
-                return R_UNIT, 0
-            return 99, 0
+        except ValueError:
+            # which of the two rejections it was is read off the call, never off the message text (rewording a message is
+            # harmless): a time before the clock is "past", anything else "unit"
+            now = self.sim.time
+            when = {"abs": tv(t, fl), "rel": now + tv(t, fl), "now": now, "tick": now + 1}[kind]
+            return (R_PAST if when < now else R_UNIT), 0
         self.by_tag.setdefault(tag, []).append(ev)
         return R_OK, sc(ev.time)
 
@@ -244,7 +242,7 @@ class _Env:
                 info["userexc"] = True
                 ob = [-1, E_USER] + self.view(self.log)
             except Exception as e:  # noqa: BLE001
-                if not self.is_setup and "has not been setup" in str(e):
+                if not self.is_setup and self.sim.model is None and type(e) is Exception:
                     info["nosetup"] = True
                     ob = [-1, E_NOSETUP]
                 else:
@@ -273,9 +271,9 @@ class _Env:
                 self.is_setup = True
                 info["setup"] = 0
                 ob = [0] + self.view([])
-            except ValueError as e:
-                msg = str(e)
-                code = E_SETUP_TIME if "not equal to start_time" in msg else E_SETUP_EVENTS if "already been scheduled" in msg else 99
+            except ValueError:
+                # classified by the state, not by the message text
+                code = E_SETUP_TIME if self.sim.time != self.sim.start_time else E_SETUP_EVENTS
                 info["setup"] = code
                 ob = [-1, code]
         else:
@@ -727,8 +725,6 @@ def run_impl(case):
             fails.append({"key": f"C15/{CLS[case['cls']]}/chunking/one-piece-run-raised", "op": -1, "what": f"{type(e).__name__}: {e}"})
         if _MODE["float"]:
             return {"obs": [[_obs_int(x) for x in ob] for ob, _ in recs], "failures": fails, "model": False}
-        if case.get("exc"):
-            return {"obs": [ob for ob, _ in recs], "failures": fails, "model": False}
         return {"obs": [ob for ob, _ in recs], "failures": fails}
     finally:
         _MODE["float"] = False
@@ -741,6 +737,8 @@ def coq_act(a):
         return f"ASched {KNAME[kind]} {L.z(t)} {PNAME[prio]} {L.z(tag)} {L.z(h)} {L.lst([coq_act(x) for x in body])}"
     if a[0] == "cancel":
         return f"ACancel {L.z(a[1])}"
+    if a[0] == "raise":
+        return "ARaise"
     return f"ADrop {L.z(a[1])}"
 
 
@@ -770,7 +768,7 @@ def coq_xop(op):
 
 
 def coq_case(case):
-    if case.get("float") or case.get("exc"):   # never evaluated by the model; only printed if a replay file asks for model observations
+    if case.get("float"):   # never evaluated by the model; only printed if a replay file asks for model observations
         return "{| x_cfg := {| c_abm := false; c_script := [] |}; x_setup := true; x_fuel := 1%nat; x_ops := [] |}"
     script = L.lst([L.pair(L.z(k), L.lst([coq_act(a) for a in acts])) for k, acts in case.get("script", [])])
     cfg = f"{{| c_abm := {L.b(case['cls'] == 'ABM')}; c_script := {script} |}}"
